@@ -1969,7 +1969,9 @@ func (sa *Application) removeAllocationInternal(allocationKey string, releaseTyp
 			sa.hasPlaceholderAlloc = false
 			// the confirmation of a replacement is followed by its real allocation: the application is not idle
 			replacing := releaseType == si.TerminationType_PLACEHOLDER_REPLACED && alloc.HasRelease()
-			if (sa.IsCompleting() && sa.stateTimer == nil && !replacing) || sa.IsFailing() || sa.IsResuming() || (sa.hasZeroAllocations() && !replacing) {
+			// a failing application is only done when its real allocations, released with the placeholders, are gone too
+			failed := sa.IsFailing() && resources.IsZero(sa.allocatedResource)
+			if (sa.IsCompleting() && sa.stateTimer == nil && !replacing) || failed || sa.IsResuming() || (sa.hasZeroAllocations() && !replacing && !sa.IsFailing()) {
 				removeApp = true
 				event = CompleteApplication
 				if sa.IsFailing() {
@@ -1998,6 +2000,15 @@ func (sa *Application) removeAllocationInternal(allocationKey string, releaseTyp
 			removeApp = true
 			event = CompleteApplication
 			eventWarning = "Application state not changed to Completing while removing an allocation"
+			// the last real allocation of a failing application: it has failed once the placeholders are gone as well
+			if sa.IsFailing() {
+				event = EventNotNeeded
+				removeApp = false
+				if resources.IsZero(sa.allocatedPlaceholder) {
+					removeApp = true
+					event = FailApplication
+				}
+			}
 		}
 		sa.decUserResourceUsage(alloc.GetAllocatedResource(), removeApp)
 	}
